@@ -25,11 +25,53 @@ fn ty_from_json(v: &Value) -> compiler::tast::Ty {
     }
 }
 
+fn kind_table(names: &Value) -> Vec<lexer::TokenKind> {
+    // discriminant index -> TokenKind; names come from the type table of the current tree and are checked against Debug
+    let mut out = Vec::new();
+    for (i, n) in names.as_array().unwrap().iter().enumerate() {
+        let k: lexer::TokenKind = unsafe { std::mem::transmute::<u8, lexer::TokenKind>(i as u8) };
+        assert_eq!(format!("{:?}", k), n.as_str().unwrap());
+        out.push(k);
+    }
+    out
+}
+
+fn parse_kinds(a: &Value) -> Value {
+    let table = kind_table(&a[1]);
+    let idx = |n: &str| a[1].as_array().unwrap().iter().position(|x| x.as_str() == Some(n)).unwrap();
+    let kinds: Vec<lexer::TokenKind> = a[0].as_array().unwrap().iter().map(|n| table[idx(n.as_str().unwrap())]).collect();
+    let texts: Vec<&'static str> = (0..kinds.len()).map(|i| &*Box::leak(format!("t{i}").into_boxed_str())).collect();
+    let toks: Vec<lexer::Token<'static>> = kinds.iter().enumerate().map(|(i, k)| lexer::Token { kind: *k, text: texts[i],
+        range: rowan::TextRange::new((i as u32).into(), (i as u32 + 1).into()) }).collect();
+    let mut p = parser::parser::Parser::new(std::path::Path::new("x.gom"), toks);
+    parser::file::file(&mut p);
+    let res = p.build_tree();
+    let (green, diags) = res.into_parts();
+    let root: parser::syntax::MySyntaxNode = rowan::SyntaxNode::new_root(green);
+    let tree_tokens: Vec<String> = root.descendants_with_tokens().filter_map(|e| e.into_token()).map(|t| t.text().to_string()).collect();
+    let n = kinds.len() as u32;
+    let mut bad = 0;
+    for d in diags.iter() {
+        if let Some(r) = d.range() { let (s, e): (u32, u32) = (r.start().into(), r.end().into()); if !(s <= e && e <= n) { bad += 1; } }
+    }
+    json!({"root": format!("{:?}", root.kind()), "tree_tokens": tree_tokens, "input_tokens": texts, "diagnostics": diags.len(), "bad_ranges": bad})
+}
+
 fn handle(req: &Value) -> Value {
     let f = req["fn"].as_str().unwrap_or("");
     let a = &req["args"];
     match f {
         "go_ident" => json!(compiler::go::mangle::go_ident(a[0].as_str().unwrap())),
+        "parse_kinds" => parse_kinds(a),
+        "lex" => {
+            let toks = lexer::lex(a[0].as_str().unwrap());
+            json!(toks.iter().map(|t| json!([format!("{:?}", t.kind), t.text, u32::from(t.range.start()), u32::from(t.range.end())])).collect::<Vec<_>>())
+        }
+        "parse_text" => {
+            let r = parser::parse(std::path::Path::new("x.gom"), a[0].as_str().unwrap());
+            let (green, diags) = r.into_parts();
+            json!({"diagnostics": diags.iter().map(|d| d.message().to_string()).collect::<Vec<_>>(), "tree": parser::debug_tree(&green)})
+        }
         "encode_ty" => json!(compiler::go::mangle::encode_ty(&ty_from_json(&a[0]))),
         _ => json!({"error": format!("unknown fn {f}")}),
     }
